@@ -237,6 +237,9 @@ class OuterStatus(object):
         elif status is Status.pending_warn:
             # -- FOR: Scenario.status based on contained step(s)
             return Status.passed
+        elif status.is_untested():
+            # -- CASE: untested_pending, untested_undefined are like untested.
+            return Status.untested
         # -- OTHERWISE:
         return status
 
